@@ -682,3 +682,80 @@ def run(ctx):
     _run_before_r03_11(ctx)
     from . import replay_rules
     ctx.guard(replay_rules.r03_11)
+
+
+# ------------------------------------------------------------------------------------------------ R05.9
+def r05_9(ctx):
+    """History slots -- slots of the Brownian classes that are stored outside construction and splitting: the search hint,
+    the query statistics -- may steer the *search* and the *refinement*, whose outcome does not depend on where they start
+    (R03.8), but their contents must not flow into a returned value: a value accumulated from the previous answer has the
+    same real value and other bits (floating-point addition is not associative), so the same query returns different
+    tensors after different histories.  Intra-procedural taint over the methods of the interval classes: a name is tainted
+    when assigned from an expression that reads a history slot, except through a call of the tree search on it
+    (`<slot>._loc(...)`); a tainted name in a return expression is a violation."""
+    rep, model = ctx.rep, ctx.model
+    rep.rule("R05.9", "the contents of history slots (search hint, query statistics, anything stored per query) do not flow into "
+                      "returned values, except through the start-independent tree search")
+    cg = ctx.callgraph()
+    value_slots, history, allowed = slot_classes(model, cg)
+    base, fam = _interval_family(model)
+    rep.extra["history_slots"] = sorted(history)
+    SANITISERS = {"_loc", "_loc_inner"}
+    n = 0
+    for c in fam:
+        for m in c.methods.values():
+            if isinstance(m.node, ast.Lambda):
+                continue
+            n += 1
+            rep.analysed(m)
+            tainted = {}
+
+            def reads_history(e):
+                """A history-slot read (or a tainted name) inside `e` that is not the receiver of a sanitising search call."""
+                sanitised = set()
+                for x in ast.walk(e):
+                    if isinstance(x, ast.Call) and isinstance(x.func, ast.Attribute) and x.func.attr in SANITISERS:
+                        for y in ast.walk(x.func.value):
+                            sanitised.add(id(y))
+                for x in ast.walk(e):
+                    if id(x) in sanitised:
+                        continue
+                    if isinstance(x, ast.Attribute) and isinstance(x.ctx, ast.Load) and x.attr in history and \
+                            isinstance(x.value, ast.Name) and x.value.id == "self":
+                        return f"self.{x.attr}"
+                    if isinstance(x, ast.Name) and isinstance(x.ctx, ast.Load) and x.id in tainted:
+                        return tainted[x.id]
+                return None
+            changed = True
+            rounds = 0
+            while changed and rounds < 6:
+                changed, rounds = False, rounds + 1
+                for st in own_nodes(m.node):
+                    if isinstance(st, (ast.Assign, ast.AugAssign, ast.AnnAssign)) and getattr(st, "value", None) is not None:
+                        src = reads_history(st.value)
+                        if src is None:
+                            continue
+                        targets = st.targets if isinstance(st, ast.Assign) else [st.target]
+                        for t in targets:
+                            for x in ast.walk(t):
+                                if isinstance(x, ast.Name) and isinstance(x.ctx, ast.Store) and x.id not in tainted:
+                                    tainted[x.id] = src
+                                    changed = True
+            for st in own_nodes(m.node):
+                if isinstance(st, ast.Return) and st.value is not None:
+                    src = reads_history(st.value)
+                    rep.check(src is None, "R05.9", astq.loc(m, st), f"{m.key}::R05.9::{astq.digest(st)}",
+                              f"{m.qualname} returns `{ast.unparse(st.value)[:70]}`, which is computed from the history slot "
+                              f"`{src}` (stored per query): the value returned for a query depends on what was asked before "
+                              f"-- equal as a real number at best, not bit for bit", "no history in returned values")
+    if n < 15:
+        raise AnalysisError(f"R05.9 inspected only {n} methods of the interval classes")
+    ctx.floor("R05.9", 15)
+
+
+_run_before_r05_9 = run
+
+
+def run(ctx):
+    _run_before_r05_9(ctx)
+    ctx.guard(r05_9)
